@@ -7,6 +7,12 @@ PAT="${1:-}"
 groups_for() {
   case "$1" in
     *c03a3*|*c08a2*|*c09a4*|*r2c09_4*|*r2c03_3*) echo "SE2d;SE2f;BunAd";;
+    *r3c08_1*) echo "SE2d;SE2f;BunAd";;
+    *r3c08_2*) echo "SE23d;SE23f;SE3d";;
+    *r3c08_3*) echo "SE3d;SE3f;SO3d";;
+    *r3c03_1*) echo "SGal3d;SGal3f;BunBd";;
+    *r3c03_2*) echo "SE3f;SE23f;SGal3f;SO3f";;
+    *r3c03_3*) echo "SO3d;SO3f;SE3d;SE3f";;
     *r3c14_3*) echo "BunAd;BunAf;BunBd";;
     *r3c14_1*|*r3c09_2*) echo "SO3d;SO3f;SE3d;SE3f";;
     *r3c09_1*) echo "SGal3d;SGal3f;BunBd";;
